@@ -7,6 +7,14 @@ import json, os, subprocess
 ROOT = os.path.dirname(os.path.dirname(os.path.abspath(__file__)))
 
 CHECKS = {
+    "C19": dict(cat="exploration", sec="5 C19",
+                tech="runtime monitor: structure-aware hostile-input generator over 61 parsing/validation entry points (in-process with recover + watchdog, v2 protocol in worker child processes, HTTP against a full node); panic / process-exit / hang / state-digest oracle; race detector incl. checkptr",
+                text="61 entry points: dag.ParseTransaction and State.Add, the IBLT unmarshal/subtract/decode path, 8 pe entries, did:web bodies/HTTP, did:nuts validators, did:jwk, did:key, DPoP, ParseJWT/ParseJWS, the tokenV2 middleware, Verify/VerifyVP (ldp and jwt), "
+                     "RegisterRevocation, status-list verification; the v2 protocol Handle for 10 envelope kinds with and without node DID in worker child processes (input logged before handling; a process exit is the observed event); 16 HTTP entries of a full node "
+                     "(/token, /authorize incl. hostile remote OpenID configuration, request.jwt, /response, discovery register, verifier vc/vp; handler panics detected through the server error log). Inputs: valid seeds, every JSON member x type-confusion/null/missing/"
+                     "extreme-number/nesting/duplicate operators, truncations, seeded 1-3 fold mutations, JWS/JWT re-signed by an attacker key after mutation, protobuf field and wire-level mutation; current input written to disk before each call. Oracle: no panic, no child "
+                     "exit, return within a 20 s watchdog (hang only if reproduced 3x alone and not finishing within 150 s alone, else inconclusive), rejected input leaves the state digest unchanged.",
+                note="Panics inside third-party go-did on hostile DID documents are listed known findings; notifier/ambassador receivers and the discovery client refresh are not run in child processes; no memory oracle."),
     "C07": dict(cat="exploration", sec="5 C07",
                 tech="runtime monitor: deterministic single-threaded adversarial network simulator over real v2 protocol instances and dag.States (wire-level envelopes only); per-step safety oracle + bounded-round convergence; live mode under the race detector",
                 text="N in {2,3,4} real nodes (real dag.State with production verifiers + real v2 protocol through the verif shims) in pair/line/triangle/ring/star/full topologies exchange only marshalled envelopes through a simulator whose seeded adversary delivers in "
